@@ -59,8 +59,9 @@ MEASUREMENTS = {
     2: lambda W: [qp.state(), qp.expval(qp.PauliZ(W[0]) @ qp.PauliX(W[1])), qp.var(qp.PauliY(W[1])), qp.probs(wires=[W[1]]), qp.expval(0.5 * qp.PauliX(W[0]) + 2 * qp.PauliZ(W[1])),
                    qp.density_matrix(wires=[W[0]]), qp.probs(wires=[W[1], W[0]])],
     3: lambda W: [qp.state(), qp.expval(qp.PauliY(W[2]) @ qp.PauliZ(W[0])), qp.var(qp.PauliZ(W[1])), qp.probs(wires=[W[2], W[0]]), qp.purity(wires=[W[1]]),
-                   qp.expval(qp.Hermitian(np.array([[1.0, 0.5 - 0.25j], [0.5 + 0.25j, -2.0]]), wires=W[1])), qp.expval(qp.Projector([1, 0], wires=[W[0], W[2]]))],
-    4: lambda W: [qp.state(), qp.expval(qp.PauliX(W[3]) @ qp.PauliX(W[0])), qp.probs(wires=[W[1], W[3]]), qp.var(qp.PauliZ(W[2]) @ qp.PauliZ(W[3]))],
+                   qp.expval(qp.Hermitian(np.array([[1.0, 0.5 - 0.25j], [0.5 + 0.25j, -2.0]]), wires=W[1])), qp.expval(qp.Projector([1, 0], wires=[W[0], W[2]])), qp.probs(wires=[W[2], W[0], W[1]]), qp.probs(wires=[W[1], W[2], W[0]]),
+                   qp.expval(qp.PauliZ(W[2]) @ qp.Projector([1], wires=[W[0]]) @ qp.PauliX(W[1]))],
+    4: lambda W: [qp.state(), qp.expval(qp.PauliX(W[3]) @ qp.PauliX(W[0])), qp.probs(wires=[W[1], W[3]]), qp.var(qp.PauliZ(W[2]) @ qp.PauliZ(W[3])), qp.probs(wires=[W[3], W[0], W[2]]), qp.probs(wires=[W[2], W[3], W[1], W[0]])],
 }
 LABELS = [["q0"], ["b", 7], [3, "aux", 0], ["x", 2, "y", -1]]
 
